@@ -347,9 +347,22 @@ def contexts_end_only_by_their_predicate(prog, rep, R):
         rep.check(ok, R, "ended-index-from-predicate:%s" % short(c.body.npath), "%s marks parser contexts as ended from index %s, which is not the result of get_ending_context_idx(): contexts (in the worst case the "
                   "top-level one) end although their predicate did not fire, the enclosing statement loop returns early and the remaining tokens get no logical line"
                   % (short(c.body.npath), sorted(str(x[2]) if x[0] != "call" else x[2].split("::")[-1] for x in o)), where=c.where(), instance={"caller": short(c.body.npath), "index": "get_ending_context_idx()"})
-    rep.floor(R, "calls of update_statuses", n, 2)
     w = sorted({a[0].npath for a in prog.field_accesses(P + "ParserContexts", "is_ended") if a[3] in ("write", "write-inner", "refmut")})
-    rep.check(set(w) <= {PC + "update_statuses", PC + "push", PC + "pop", PC + "push_context", PC + "pop_context"} and (PC + "update_statuses") in w, R, "who-writes:is_ended",
+    stack_ops = {PC + "push", PC + "pop", PC + "push_context", PC + "pop_context"}
+    markers = [x for x in w if x not in stack_ops and x != PC + "update_statuses"]
+    # a function that marks contexts itself (lookup and marking fused): the marked range starts at the index the lookup returned
+    for m in markers:
+        mb = prog.body(m)
+        look = [c for c in mb.calls() if norm(c.t.get("resolved") or c.callee or "") == PC + "get_ending_context_idx"]
+        muts = [a for a in prog.field_accesses(P + "ParserContexts", "is_ended", within={m}) if a[3] in ("write", "write-inner", "refmut")]
+        ok = len(look) >= 1 and all(any(mb.dominates(c.bb, a[1]) for c in look) for a in muts)
+        idxs = [c for c in mb.calls() if (c.callee or "").split("::")[-1] in ("index_mut", "get_mut", "split_at_mut") and "is_ended" in canon(mb, c.args[0])]
+        ok &= all("get_ending_context_idx(" in canon(mb, c.args[1]) for c in idxs) and (bool(idxs) or all(a[3] != "refmut" for a in muts))
+        n += 1
+        rep.check(ok, R, "ended-index-from-predicate:%s" % short(m), "%s marks parser contexts as ended at an index that is not the result of get_ending_context_idx()" % short(m),
+                  where="%s:%d" % (mb.file, mb.line), instance={"caller": short(m), "index": "get_ending_context_idx()", "fused": True})
+    rep.floor(R, "places that mark contexts as ended", n, 1)
+    rep.check(set(w) - set(markers) <= stack_ops | {PC + "update_statuses"} and bool(n), R, "who-writes:is_ended",
               "ParserContexts.is_ended is written in %s" % [short(x) for x in w], instance={"writers": [short(x) for x in w]})
 
 
